@@ -251,6 +251,10 @@ Proof.
   - apply ynp_if; [apply IH | exact I].
   - apply ynp_bind; [apply ynp_lift; apply np_ytake_ref|]. intros cr st3. apply Hinto.
   - apply IH.
+  - apply ynp_if; [exact I|]. apply ynp_if; apply IH.
+  - clear Hbits. generalize st. revert s.
+    induction fs as [ | t1 ft IHf]; intros s0 stx; [exact I|].
+    apply ynp_bind; [apply IH|]. intros s1 st2. apply IHf.
 Qed.
 
 Theorem ydec_np env hk rs : forall fuel t s st, ynp (ydec env hk rs fuel t s st).
